@@ -3,6 +3,7 @@ C12 — DOCTYPE content is contained: no nested-entity expansion, no content-dri
 Model: FeedVerif/Model/Doctype.lean.
 -/
 import FeedVerif.Model.Doctype
+import FeedVerif.Model.Mixin
 
 namespace FeedVerif.Doctype
 open List
@@ -144,3 +145,79 @@ example : safeMatch " e1 \"&e0;&e0;\"".toList = none := by decide +kernel
 example : (replaceDoctype "no markup".toList).data = "no markup".toList := by decide +kernel
 
 end FeedVerif.Doctype
+
+
+namespace FeedVerif.Mixin
+
+/-! ### the consumer side of the entity table (M-mixin stage 6): the loose back end's `handle_entityref` / `handle_charref`
+
+`replace_doctype` hands the table of safe entities (see `entities_dict_safe` above) to the loose parser; these theorems say what a reference can
+become THERE: its replacement text is appended as character data exactly once — it is never tokenised again, so nothing inside it is expanded — and
+one reference contributes at most the longest declared replacement text plus two characters. -/
+
+/-- a reference to a declared entity whose replacement is not of the `&#…;` form appends exactly the replacement text -/
+theorem eref_expands_once (o : Ops) (ref t : Str) (ht : o.entities ref = some t)
+    (hfive : (ref == S "lt" || ref == S "gt" || ref == S "quot" || ref == S "amp" || ref == S "apos") = false)
+    (hplain : ((S "&#").isPrefixOf t && endsWith [';'] t) = false) : erefText o ref = t := by
+  unfold erefText erefTextF
+  simp only [hfive, Bool.false_eq_true, ↓reduceIte, ht, hplain]
+
+/-- **Linear growth**: whatever the table, one entity reference appends at most `max (length of the name) (longest replacement) + 2` characters -/
+theorem eref_text_bounded (o : Ops) (B : Nat) (hB : ∀ r t, o.entities r = some t → t.length ≤ B) :
+    ∀ (n : Nat) (ref : Str), (erefTextF o n ref).length ≤ max ref.length B + 2 := by
+  intro n
+  induction n with
+  | zero => intro ref; simp only [erefTextF, List.length_append, List.length_cons, List.length_nil]; omega
+  | succ n ih =>
+    intro ref
+    unfold erefTextF
+    split
+    · simp only [List.length_append, List.length_cons, List.length_nil]; omega
+    · split
+      · rename_i t ht
+        have hl := hB ref t ht
+        split
+        · have := ih t
+          omega
+        · omega
+      · split
+        · simp only [List.length_cons, List.length_nil]; omega
+        · simp only [List.length_append, List.length_cons, List.length_nil]; omega
+
+/-- a character reference appends one character, or — for the ten kept ones — the reference itself -/
+theorem cref_text_bounded (ref t : Str) (h : crefText ref = some t) : t.length ≤ ref.length + 3 := by
+  unfold crefText at h
+  simp only at h
+  split at h
+  · injection h with h
+    rw [← h]
+    simp [lowerS, S]
+  · split at h
+    · cases h
+    · split at h <;> (injection h with h; rw [← h]; simp)
+
+/-- the event itself only appends that text to the open element (or drops it when no element is open): no other part of the state changes -/
+theorem ref_events_only_append (o : Ops) (s s' : MSt) (ref : Str) :
+    (mstep o s (.eref ref) = .ok s' → s'.c = s.c ∧ s'.stack.length = s.stack.length) ∧
+    (mstep o s (.cref ref) = .ok s' → s'.c = s.c ∧ s'.stack.length = s.stack.length) := by
+  have hd : ∀ t, (handleData s t).c = s.c ∧ (handleData s t).stack.length = s.stack.length := by
+    intro t; unfold handleData; split <;> simp [*]
+  refine ⟨fun h => ?_, fun h => ?_⟩
+  · simp only [mstep] at h; injection h with h; rw [← h]; exact hd _
+  · simp only [mstep] at h
+    split at h
+    · injection h with h; rw [← h]; exact hd _
+    · cases h
+
+/-- non-vacuity: a declared entity, an HTML entity name, an unknown name, a kept and an ordinary character reference, a surrogate -/
+example :
+    let o : Ops := { base := ⟨fun _ r => r, fun u => u, fun _ r => r⟩, join := fun _ u => u, fix := id, loose := true,
+                     entities := fun r => if r == S "me" then some (S "my text with <b>") else if r == S "num" then some (S "&#233;") else none }
+    ((erefText o (S "me"), erefText o (S "amp"), erefText o (S "nosuch"), erefText o (S "num"), crefText (S "38"), crefText (S "65"), crefText (S "xD800"), crefText (S "x")) ==
+     (S "my text with <b>", S "&amp;", S "&nosuch;", S "&&#233;;", some (S "&#38;"), some (S "A"), some [Char.ofNat 0xFFFD], none)) = true := by decide +kernel
+
+/-- the source of the hand-modelled reference callbacks (`handle_charref`, `handle_entityref`, `handle_data`) and of both back ends' `decode_entities` is the one the
+model was written from (fingerprints recomputed from /repo on every run; the list names the functions whose body changed) -/
+theorem stage6_source_unchanged : Gen.Mixin.stage6ChangedL = [] := by decide
+
+end FeedVerif.Mixin
